@@ -136,6 +136,8 @@ func (sw *SprayAndWait) SenderForBundle(bp BundleDescriptor) (css []cla.Converge
 		}).Warn("No metadata")
 		return
 	}
+	verifPoint("SprayAndWait.SenderForBundle:read")
+
 	// if there are no copies left, we just wait until we meet the recipient
 	if metadata.remainingCopies < 2 {
 		log.WithFields(log.Fields{
@@ -196,6 +198,8 @@ func (sw *SprayAndWait) ReportFailure(bp BundleDescriptor, sender cla.Convergenc
 		return
 	}
 
+	verifPoint("SprayAndWait.ReportFailure:read")
+
 	metadata.remainingCopies = metadata.remainingCopies + 1
 
 	for i := 0; i < len(metadata.sent); i++ {
@@ -208,6 +212,8 @@ func (sw *SprayAndWait) ReportFailure(bp BundleDescriptor, sender cla.Convergenc
 	sw.dataMutex.Lock()
 	sw.bundleData[bp.Id] = metadata
 	sw.dataMutex.Unlock()
+
+	verifPoint("SprayAndWait.ReportFailure:written")
 }
 
 func (_ *SprayAndWait) ReportPeerAppeared(_ cla.Convergence) {}
@@ -323,6 +329,8 @@ func (bs *BinarySpray) SenderForBundle(bp BundleDescriptor) (css []cla.Convergen
 		return
 	}
 
+	verifPoint("BinarySpray.SenderForBundle:read")
+
 	// if there are no copies left, we just wait until we meet the recipient
 	if metadata.remainingCopies < 2 {
 		log.WithFields(log.Fields{
@@ -404,6 +412,9 @@ func (bs *BinarySpray) ReportFailure(bp BundleDescriptor, sender cla.Convergence
 		}).Warn("No metadata")
 		return
 	}
+
+	verifPoint("BinarySpray.ReportFailure:read")
+
 	binarySprayBlock.SetCopies(metadata.remainingCopies + binarySprayBlock.RemainingCopies())
 
 	for i := 0; i < len(metadata.sent); i++ {
@@ -416,6 +427,8 @@ func (bs *BinarySpray) ReportFailure(bp BundleDescriptor, sender cla.Convergence
 	bs.dataMutex.Lock()
 	bs.bundleData[bp.Id] = metadata
 	bs.dataMutex.Unlock()
+
+	verifPoint("BinarySpray.ReportFailure:written")
 }
 
 func (_ *BinarySpray) ReportPeerAppeared(_ cla.Convergence) {}
